@@ -511,14 +511,62 @@ def flat_err_only(prog, fb, blk):
     if not t or t["k"] != "call":
         return False
     carriers, calls, sw = caller.slice_fwd([t["dest"][0]])
+    gated = False
     for l in carriers:
         for g in gates_of_value(caller, l):
             if g.kind in ("try", "result"):
+                gated = True
                 ft = g.target_for(1)
                 # the failure edge in the caller, as a block of the flat body: same origin function instance as the call site
                 fidx = _flat_index(fb, cs, ft)
                 if fidx is not None and flat_err_only(prog, fb, fidx):
                     return True
+    if not gated and _returned_as_is(caller, t["dest"][0]):
+        # `return helper(..)`: the callee's Err is the caller's Err — continue at the caller's own call site
+        if fb.callsite[cs] is None:
+            return True
+        return flat_err_only(prog, fb, cs) if False else _err_only_from_callsite(prog, fb, cs)
+    return False
+
+
+def _returned_as_is(body, local):
+    """the value is moved, untested, into the function's return place"""
+    seen, work = set(), [local]
+    while work:
+        l = work.pop()
+        if l in seen:
+            continue
+        seen.add(l)
+        if l == 0:
+            return True
+        for blk in body.rpo():
+            for s in body.stmts(blk):
+                if s["k"] == "assign" and s["rv"]["k"] == "use" and not s["p"][1]:
+                    p = op_place(s["rv"]["op"])
+                    if p is not None and not p[1] and p[0] == l:
+                        work.append(s["p"][0])
+    return False
+
+
+def _err_only_from_callsite(prog, fb, cs):
+    """the function instance that contains flat block `cs` returns what its callee returned: judge its own call site one level up"""
+    up = fb.callsite[cs]
+    if up is None:
+        return True
+    caller = prog.body(fb.origin[up])
+    t = caller.term(fb.origin_blk[up])
+    if not t or t["k"] != "call":
+        return False
+    gated = False
+    for l in caller.slice_fwd([t["dest"][0]])[0]:
+        for g in gates_of_value(caller, l):
+            if g.kind in ("try", "result"):
+                gated = True
+                fidx = _flat_index(fb, up, g.target_for(1))
+                if fidx is not None and flat_err_only(prog, fb, fidx):
+                    return True
+    if not gated and _returned_as_is(caller, t["dest"][0]):
+        return _err_only_from_callsite(prog, fb, up)
     return False
 
 
